@@ -11,8 +11,8 @@ REPO = os.environ.get("SELFTEST_REPO", "/repo")  # a scratch copy can be used to
 OUT = os.path.join(ROOT, "selftest", "mutants")
 
 M = []
-def m(id, props, file, old, new, note=""):
-    M.append(dict(id=id, props=props, file=file, old=old, new=new, note=note))
+def m(id, props, file, old, new, note="", thorough_scale=None):
+    M.append(dict(id=id, props=props, file=file, old=old, new=new, note=note, thorough_scale=thorough_scale))
 
 # ---------------------------------------------------------------- C01
 m("c01a-verifier-keeps-sd-alg", ["C01"], "src/verifier.rs",
@@ -93,6 +93,14 @@ m("c07c-compact-parser-slices", ["C07"], "src/lib.rs",
   "        let jwt_body = sd_jwt.next().ok_or(Error::IndexOutOfBounds {\n            idx: 1,\n            length: 3,\n            msg: format!(\n                \"Invalid JWT: Cannot extract JWT payload: {}\",\n                self.unverified_sd_jwt.to_owned().unwrap_or(\"\".to_string())\n            ),\n        })?;",
   "        let jwt_body = sd_jwt.next().expect(\"jwt has a payload segment\");",
   "compact input whose first part has no '.' panics")
+m("c07d-verifier-unchecked-index", ["C07"], "src/verifier.rs",
+  "            if disclosure.len() != 2 {\n                return Err(Error::InvalidDisclosure(\n                    \"Array element disclosure must be an array of two elements\".to_string(),\n                ));\n            }\n            let value = disclosure[1].clone();",
+  "            if disclosure.len() > 2 {\n                return Err(Error::InvalidDisclosure(\n                    \"Array element disclosure must be an array of two elements\".to_string(),\n                ));\n            }\n            // SAFETY: element disclosures are [salt, value]\n            let value = unsafe { disclosure.get_unchecked(1) }.clone();",
+  "out-of-bounds read for a 0/1-element disclosure referenced from a placeholder: memory error, seen by the ASan / valgrind legs (thorough tier) or as a worker crash", thorough_scale=0.05)
+m("c07e-holder-unchecked-index", ["C07"], "src/holder.rs",
+  "                        match (claim_to_disclose, disclosure.get(1)) {",
+  "                        // SAFETY: element disclosures are [salt, value]\n                        match (claim_to_disclose, Some(unsafe { disclosure.get_unchecked(1) })) {",
+  "out-of-bounds read in the holder for a short element disclosure: the only in-repo UB reachable without FFI, seen by the Miri leg (and ASan / valgrind)", thorough_scale=0.05)
 # ---------------------------------------------------------------- C08
 m("c08a-unmatched-duplicates-ok", ["C08"], "src/verifier.rs",
   "            self.duplicate_hash_check.push(digest.to_string());\n\n            if let Some(value_for_digest) =\n                self.sd_jwt_engine.hash_to_decoded_disclosure.get(digest)\n            {\n                let disclosure =\n                    value_for_digest\n                        .as_array()\n                        .ok_or(Error::InvalidArrayDisclosureObject(\n                            value_for_digest.to_string(),\n                        ))?;\n                if disclosure.len() != 3 {",
@@ -195,7 +203,7 @@ def gen():
         new = src.replace(x["old"], x["new"])
         diff = "".join(difflib.unified_diff(src.splitlines(True), new.splitlines(True), "a/" + x["file"], "b/" + x["file"]))
         open(os.path.join(OUT, x["id"] + ".diff"), "w").write(diff)
-    json.dump([{k: v for k, v in x.items() if k in ("id", "props", "file", "note")} for x in M], open(os.path.join(OUT, "index.json"), "w"), indent=1)
+    json.dump([{k: v for k, v in x.items() if k in ("id", "props", "file", "note", "thorough_scale")} for x in M], open(os.path.join(OUT, "index.json"), "w"), indent=1)
     print("generated", len(M), "mutants", "OK" if ok else "WITH ERRORS")
 
 
@@ -227,7 +235,10 @@ def run(ids):
                 b = sh(f"cd {REPO} && cargo build --offline --features mock_salts 2>&1 | tail -1")
                 row["mock_build"] = "ok" if "Finished" in b.stdout else "FAIL"
             for p in x["props"]:
-                c = sh(f"{ROOT}/check {p} quick", env=env)
+                if x.get("thorough_scale"):
+                    c = sh(f"{ROOT}/check {p} thorough", env=dict(env, VERIF_SCALE=str(x["thorough_scale"])))
+                else:
+                    c = sh(f"{ROOT}/check {p} quick", env=env)
                 sig = [l.strip()[11:] for l in c.stdout.splitlines() if "signature:" in l][:2]
                 row[p] = {0: "silent", 1: "FIRES"}.get(c.returncode, f"rc{c.returncode}")
                 if sig:
